@@ -99,6 +99,20 @@ def _reqs():
             'POST', '/resource_providers/%s/inventories' % U(p), {
                 'resource_class': 'CUSTOM_FOO', 'total': 4}, version='1.36'))
 
+    def put_inventories_custom(p):
+        return Req('put_inventories_custom', lambda ctx, w: app.call(
+            'PUT', '/resource_providers/%s/inventories' % U(p), {
+                'resource_provider_generation': 0, 'inventories': {
+                    'CUSTOM_FOO': {'total': ctx.int('foo_total', 1)}}},
+            version='1.36'))
+
+    def reshape_custom(p):
+        return Req('reshape_custom', lambda ctx, w: app.call(
+            'POST', '/reshaper', {'inventories': {U(p): {
+                'resource_provider_generation': 0, 'inventories': {
+                    'CUSTOM_FOO': {'total': ctx.int('foo_total', 1)}}}},
+                'allocations': {}}, version='1.36', roles='admin,service'))
+
     def delete_trait():
         return Req('delete_trait', lambda ctx, w: app.call(
             'DELETE', '/traits/CUSTOM_T1', version='1.36'))
@@ -120,6 +134,10 @@ def families(tier):
             R['delete_provider'](1), R['put_alloc'](1)]),
         conc_family('delete_provider+post_child', lambda: [
             R['delete_provider'](1), R['post_child'](1)]),
+        # the replace-all write resolves the class inside its transaction
+        # (unlike POST of one inventory, see the note below)
+        conc_family('delete_class+put_inventories', lambda: [
+            R['delete_class'](), R['put_inventories_custom'](2)]),
     ]
     if tier == 'thorough':
         fams += [
@@ -129,6 +147,8 @@ def families(tier):
                 R['delete_inventory'](1), R['put_alloc'](1)]),
             conc_family('delete_inventories+put_alloc', lambda: [
                 R['delete_inventories'](1), R['put_alloc'](1)]),
+            conc_family('delete_class+reshape', lambda: [
+                R['delete_class'](), R['reshape_custom'](2)]),
             conc_family('put_inventories_empty+put_alloc', lambda: [
                 R['put_inventories_empty'](1), R['put_alloc'](1)]),
             # NOTE: delete_class || post_inventory and delete_trait ||
